@@ -16,8 +16,9 @@ interpreter's `int()` digit limit).  The theorems hold for **every** `T` satisfy
 `StrTables.ascii` (proved lawful) is the ASCII-only instance that C03/C14/C19 use through the
 two-argument `Color.parse v` / `Style.parse v`; `StrTables.real` is built from the tables translated
 from the *running* Python on every run (`Gen/StrTables.lean`, harness/gen/str_tables.py) and is what the
-C06 driver is compared with on all code points.  Its lawfulness is validated exhaustively on every run
-(request `tables_lawful`), not proved.  The one thing outside the model: `str.lower()` of a string
+C06 driver is compared with on all code points.  Its lawfulness is proved from the generated tables on every build
+(`Lemmas/StrTablesReal.lean`, theorem `C06.real_tables_lawful`) and additionally validated exhaustively on every run
+(request `tables_lawful`, and the real `str` methods on all code points).  The one thing outside the model: `str.lower()` of a string
 containing GREEK CAPITAL SIGMA (final-sigma rule, context dependent) — the driver answers `unmodelled`.
 
 `functools.lru_cache` on `Color.parse` is assumed transparent (the function is pure).
@@ -43,7 +44,7 @@ deriving Repr, BEq, DecidableEq, Inhabited
 
 /-- Which variant of the code is modelled.  `true` = the behaviour of rich 9.10.0 as it stood when
 the defect was found, `false` = the minimally repaired behaviour, which /repo contains now (`fix:` commits c34676b, a639ea2,
-cf948b2; the diffs under /verif/pending_fixes were their proposals).
+cf948b2, c566893; the diffs under /verif/pending_fixes were their proposals).
 The harness passes the flags that match the working tree (`# CODE VARIANT FLAGS` in
 harness/props/c06.py). -/
 structure StyleVariant where
